@@ -480,6 +480,31 @@ def feature_tag(case):
     return ":".join(t)
 
 
+# ----------------------------------------------------------------- the document the decoder was written from
+DOC_PHRASES = ["presence of a `geff` key", "must contain a `nodes` group and an `edges` group", "`nodes\\ids` array is a 1D array",
+               "`edges\\ids` array is a 2D array with the same dtype", "shape `(E, 2)`", "`nodes\\props` group is optional",
+               "each with a `values` array and an optional `missing` array",
+               "first dimension of the `values` array must have the same length as the node `ids` array",
+               "A `1` at an index in the `missing` array indicates that the `value` of that property",
+               "will have a `data` array in addition to the `values` and `missing` arrays",
+               "`values` array will contain the offset and shape of the relevant section of data",
+               "values # shape: (N, ndim + 1)", "`edges/props` is optional"]
+
+
+def check_document_names(ck):
+    """GeffModel/SpecDecode.lean was written from docs/specification.md; if the clauses it implements disappear from
+    the document of the tree under test, the tie of `denote` to the document is broken (not a violation by itself)."""
+    try:
+        text = (common.REPO / "docs" / "specification.md").read_text()
+    except OSError as e:
+        ck.broken.append({"what": "corr C02:specification-document", "detail": str(e)})
+        return
+    gone = [p for p in DOC_PHRASES if p not in text]
+    ck.extra["document_clauses_checked"] = len(DOC_PHRASES)
+    if gone:
+        ck.broken.append({"what": "corr C02:specification-document", "detail": {"clauses no longer in docs/specification.md": gone}})
+
+
 # ----------------------------------------------------------------- the check
 def run(ck: common.Check):
     ck.prove(["GeffProps.C02"])
@@ -490,6 +515,7 @@ def run(ck: common.Check):
                "missing omitted/all-false, dummy values, optional groups absent/empty, omitted/shuffled metadata, foreign "
                "attrs/siblings, var-length sections out of order with gaps; string encoding and offset-table dtype counted "
                "separately), read by read_to_memory with validation on and off. non-trivial = at least one node or property")
+    check_document_names(ck)
     base = [c for c in C01.rotate_layouts(C01.exhaustive(ck.quick)) + C01.special_cases() if C01.wf_case(c)]
     nrand = 500 if ck.quick else 2000
     base += [c for c in (C01.random_case(ck.rng, ck.quick) for _ in range(nrand)) if C01.wf_case(c)]
